@@ -1595,6 +1595,10 @@ bool RegularExpression::doTokenOverlap(const Op* op, Token* token)
             return t1->match(*token->getString());
         case Token::T_RANGE:
             {
+                // a negated class lists the characters it excludes, so
+                // intersecting the lists says nothing; assume an overlap
+                if (t1->getTokenType() == Token::T_NRANGE)
+                    return true;
                 try
                 {
                     RangeToken tempRange(t1->getTokenType(), fMemoryManager);
